@@ -30,6 +30,7 @@ import (
 	"github.com/facebookincubator/dns/dnsrocks/dnsdata/rdb"
 	"github.com/miekg/dns"
 
+	"verifharness/complib"
 	"verifharness/hlib"
 )
 
@@ -85,9 +86,13 @@ type c03case struct {
 	Obs   map[string]*obs `json:"obs,omitempty"` // internal (parent <-> child): all backends
 	Pts   []point         `json:"pts,omitempty"` // rr kind, diagnostic only
 	File  string          `json:"file,omitempty"`
+	Pre   bool            `json:"pre,omitempty"` // also run the preprocessor path (backends pv1 / pv2)
 }
 
-var bkOrder = []string{"cdb", "cdbsep", "v1", "v2"}
+// pv1 / pv2: the data file goes through the preprocessor first (Codec.Preprocess with the settings
+// of cmd/dnsrocks-preproc: % lines become ! range-point lines through SubnetRanger.OpenScanner),
+// the preprocessed text is compiled to RocksDB (v1 / v2 keys)
+var bkOrder = []string{"cdb", "cdbsep", "v1", "v2", "pv1", "pv2"}
 
 // what is written out: all clients of one subnet set (kind rr), or all queries of
 // one data file that select the same map, on one backend (kind db)
@@ -99,7 +104,7 @@ type qobs struct {
 
 type outcase struct {
 	Kind string   `json:"kind"`
-	Bk   string   `json:"bk"` // "rr" | "cdb" | "cdbsep" | "v1" | "v2"
+	Bk   string   `json:"bk"` // "rr" | "cdb" | "cdbsep" | "v1" | "v2" | "pv1" | "pv2"
 	Maps []mapdef `json:"maps"`
 	Nets []subnet `json:"nets"`
 	Qs   []qobs   `json:"qs"`
@@ -137,6 +142,9 @@ func emitGroups(e *hlib.Emitter, cases []*c03case, only string) {
 		for _, b := range bkOrder {
 			if only != "" && only != b {
 				continue
+			}
+			if groups[k][0].Obs[b] == nil {
+				continue // backend not run for this file (preprocessor path)
 			}
 			o := &outcase{Kind: "db", Bk: b, Maps: c0.Maps, Nets: c0.Nets}
 			for _, c := range groups[k] {
@@ -923,7 +931,12 @@ type backend struct {
 	d    *db.DB
 }
 
-func compileAll(dir string, text string, onlyCDB bool) ([]backend, error) {
+// needBk restricts the backends that are built (replay and shrinking re-run one backend); nil = all
+var needBk map[string]bool
+
+func wantBk(name string) bool { return needBk == nil || needBk[name] }
+
+func compileAll(dir string, text string, onlyCDB bool, pre bool) ([]backend, error) {
 	in := filepath.Join(dir, "data.in")
 	if err := os.WriteFile(in, []byte(text), 0o644); err != nil {
 		return nil, err
@@ -942,6 +955,9 @@ func compileAll(dir string, text string, onlyCDB bool) ([]backend, error) {
 		return res, nil
 	}
 	for _, v2 := range []bool{false, true} {
+		if (!v2 && !wantBk("v1")) || (v2 && !wantBk("v2")) {
+			continue
+		}
 		p := filepath.Join(dir, fmt.Sprintf("rdb-%v", v2))
 		os.RemoveAll(p)
 		if err := os.MkdirAll(p, 0o755); err != nil {
@@ -957,6 +973,40 @@ func compileAll(dir string, text string, onlyCDB bool) ([]backend, error) {
 		name := "v1"
 		if v2 {
 			name = "v2"
+		}
+		res = append(res, backend{name, d})
+	}
+	if !pre || (!wantBk("pv1") && !wantBk("pv2")) {
+		return res, nil
+	}
+	// the preprocessor path: text -> Codec.Preprocess -> text with ! lines -> RocksDB
+	out, err := complib.Preprocess([]byte(text), 1)
+	if err != nil {
+		return nil, fmt.Errorf("preprocess: %w", err)
+	}
+	prein := filepath.Join(dir, "data.pre")
+	if err := os.WriteFile(prein, out, 0o644); err != nil {
+		return nil, err
+	}
+	for _, v2 := range []bool{false, true} {
+		if (!v2 && !wantBk("pv1")) || (v2 && !wantBk("pv2")) {
+			continue
+		}
+		p := filepath.Join(dir, fmt.Sprintf("prdb-%v", v2))
+		os.RemoveAll(p)
+		if err := os.MkdirAll(p, 0o755); err != nil {
+			return nil, err
+		}
+		if _, err := rdb.CompileToSpecificRDBVersion(prein, p, rdb.CompilationOptions{UseV2KeySyntax: v2, UseBuilder: true}); err != nil {
+			return nil, fmt.Errorf("rdb compile of the preprocessed text v2=%v: %w\n%s", v2, err, out)
+		}
+		d, err := db.Open(p, "rocksdb")
+		if err != nil {
+			return nil, err
+		}
+		name := "pv1"
+		if v2 {
+			name = "pv2"
 		}
 		res = append(res, backend{name, d})
 	}
@@ -1256,7 +1306,11 @@ func runFileCases(a *hlib.Args, cases []*c03case, onlyCDB bool) error {
 		return err
 	}
 	defer os.RemoveAll(dir)
-	bks, err := compileAll(dir, cases[0].File, onlyCDB)
+	pre := false
+	for _, c := range cases {
+		pre = pre || c.Pre
+	}
+	bks, err := compileAll(dir, cases[0].File, onlyCDB, pre)
 	if err != nil {
 		return err
 	}
@@ -1374,7 +1428,8 @@ func run(a *hlib.Args, e *hlib.Emitter) error {
 				oc.Nets = []subnet{}
 			}
 			for _, qo := range oc.Qs {
-				c := &c03case{Kind: oc.Kind, Class: qo.Class, Maps: oc.Maps, Nets: oc.Nets, Q: qo.Q}
+				c := &c03case{Kind: oc.Kind, Class: qo.Class, Maps: oc.Maps, Nets: oc.Nets, Q: qo.Q,
+					Pre: strings.HasPrefix(oc.Bk, "pv")}
 				if oc.Kind == "rr" {
 					runRR(c)
 				} else {
@@ -1385,12 +1440,16 @@ func run(a *hlib.Args, e *hlib.Emitter) error {
 			}
 			units = append(units, u)
 		}
+		needBk = map[string]bool{}
+		for _, u := range units {
+			needBk[u.bk] = true
+		}
 		for _, g := range groupByFile(dbcases) {
 			if err := runFileCases(a, g, false); err != nil {
 				return err
 			}
 		}
-		if len(dbcases) > 0 {
+		if len(dbcases) > 0 && wantBk("cdbsep") {
 			if err := sepChild(a, dbcases); err != nil {
 				return err
 			}
@@ -1426,7 +1485,8 @@ func run(a *hlib.Args, e *hlib.Emitter) error {
 			nq = 220
 		}
 		for _, qc := range genQueries(r2, f, nq) {
-			c := &c03case{Kind: "db", Class: qc.class, Maps: f.maps, Nets: f.nets, Q: qc.q, File: f.text}
+			c := &c03case{Kind: "db", Class: qc.class, Maps: f.maps, Nets: f.nets, Q: qc.q, File: f.text,
+				Pre: i <= len(fixedFiles) || a.Tier == "thorough"}
 			if c.Maps == nil {
 				c.Maps = []mapdef{}
 			}
